@@ -237,8 +237,12 @@ PV_THOROUGH = "1:1:0,1:2:0,1:1:1,1:2:1,1:3:1,2:2:0,2:2:1,3:1:0,3:2:0,3:2:1,3:3:1
 
 def _sharp_env(ctx):
     if ctx.quick:
-        zs = [1, 2 + ctx.seed % 5]
-        return dict(VERIF_Z=",".join(map(str, zs)), VERIF_PV=PV_QUICK, VERIF_ST="1,2,3,4,5")
+        # every compression takes part; identity and one other (by seed) on all quick instances, the remaining four on
+        # two instances (Connect and gRPC-Web over HTTP/2) - each codec has its own block / window sizes near the limit
+        full = [1, 2 + ctx.seed % 5]
+        rest = [z for z in range(2, 7) if z not in full]
+        return dict(VERIF_Z="1,2,3,4,5,6", VERIF_PV=PV_QUICK, VERIF_ST="1,2,3,4,5",
+                    VERIF_Z_NARROW=",".join(map(str, rest)), VERIF_PV_NARROW="1:2:0,3:2:0")
     return dict(VERIF_Z="1,2,3,4,5,6", VERIF_PV=PV_THOROUGH, VERIF_ST="1,2,3,4,5")
 
 
